@@ -10,7 +10,10 @@ Require Import List Bool Arith.
 Require Import IW.CC.Lts.
 Import ListNotations.
 
-Record cfg := mkcfg { limit : nat; blocking : bool; has_cb : bool; recheck : bool }.
+(* [selfunlock] selects the variant of the self-thread guard of iwstw_shutdown (a task body calling iwstw_shutdown on its own
+   executor): false = the code as found (`return IW_ERROR_ASSERTION;` with stw->mtx still locked), true =
+   fixes/exec-stw-self-shutdown-unlock.diff (the mutex is released first, as iwtp_shutdown does). *)
+Record cfg := mkcfg { limit : nat; blocking : bool; has_cb : bool; recheck : bool; selfunlock : bool }.
 
 Definition W : tid := 0. (* the worker thread; every other thread id is a client *)
 
@@ -27,7 +30,12 @@ Inductive wpcT :=
 | WWait   (* inside pthread_cond_wait(&cond) *)
 | WWoken  (* cond_wait returned, mutex held *)
 | WExit   (* left the loop *)
-| WDead.  (* thread finished *)
+| WDead   (* thread finished *)
+(* the task body calls iwstw_shutdown(&stw, ..) on its own executor *)
+| WSdStart   (* inside fn(arg): iwstw_shutdown entered, before pthread_mutex_lock *)
+| WSdLocked  (* locked, before `if (stw->shutdown)` / `if (stw->thr == pthread_self())` *)
+| WSdRet0    (* unlocked, about to return 0 (shutdown was already set) *)
+| WSdRetA.   (* unlocked (variant selfunlock), about to return IW_ERROR_ASSERTION *)
 
 Inductive cpcT :=
 | Idle | Start | Locked
@@ -127,6 +135,19 @@ Definition wstep (c : cfg) (s : st) (e : ev) : option st :=
   | WDeq, EUnlock => if owns (owner s) W then Some (set_wpc (set_owner s None) WU1t) else None
   | WU1t, ERun x => if x =? wtk s then Some (set_wpc (set_started s (started s ++ [x])) WRun) else None
   | WRun, EDone x => if x =? wtk s then Some (set_wpc (set_done s (done s ++ [x])) WU1) else None
+  (* iwstw_shutdown from the task body *)
+  | WRun, ECall f _ _ => if f =? 3 then Some (set_wpc s WSdStart) else None
+  | WSdStart, ELock => if free_mtx (owner s) then Some (set_wpc (do_lock s W) WSdLocked) else None
+  | WSdLocked, EUnlock =>
+      if owns (owner s) W then
+        if shut s then Some (set_wpc (set_owner s None) WSdRet0)
+        else if selfunlock c then Some (set_wpc (set_owner s None) WSdRetA) else None
+      else None
+  | WSdLocked, ERet rc sc =>  (* code as found: `return IW_ERROR_ASSERTION;` - the mutex stays locked *)
+      if owns (owner s) W && negb (shut s) && negb (selfunlock c) && (rc =? RC_ASSERTION) && negb sc then Some (set_wpc s WRun)
+      else None
+  | WSdRet0, ERet rc sc => if (rc =? RC_OK) && negb sc then Some (set_wpc s WRun) else None
+  | WSdRetA, ERet rc sc => if (rc =? RC_ASSERTION) && negb sc then Some (set_wpc s WRun) else None
   | WU1, ELock => if free_mtx (owner s) then Some (set_wpc (do_lock s W) WL2) else None
   | WL2, EBcast k =>
       if owns (owner s) W && (k =? 1) && canunblock c s && (negb (is_nil (queue s)) || negb (shut s)) then
@@ -325,7 +346,7 @@ Definition hidden (c : cfg) (s : st) (t : tid) : option ev :=
 
 (* tasks held by the worker between dequeue and the return of fn *)
 Definition held (s : st) : list task :=
-  match wpc s with WDeq | WU1t | WRun => [wtk s] | _ => [] end.
+  match wpc s with WDeq | WU1t | WRun | WSdStart | WSdLocked | WSdRet0 | WSdRetA => [wtk s] | _ => [] end.
 
 (* every thread is at rest: the worker has finished and no client is inside a call *)
 Definition cl_idle (s : st) (t : tid) : bool := match cp (cl s t) with Idle => true | _ => false end.
